@@ -349,10 +349,75 @@ func concInt(v Value) (int, bool) {
 
 func concStr(v Value) (string, bool) {
 	t, ok := v.(*smt.Term)
-	if !ok || !t.IsConst() || t.Sort.K != smt.KStr {
+	if !ok || !t.IsConst() {
+		return "", false
+	}
+	if isOrd(t) {
+		return ordString(t.U), true
+	}
+	if t.Sort.K != smt.KStr {
 		return "", false
 	}
 	return t.S, true
+}
+
+// Ordinal strings: a symbolic string that is only ever compared (==, <) is carried as a 61-bit
+// unsigned ordinal; 0 is "" and k > 0 is the 16-digit lower-case hex rendering of k, so that the
+// unsigned order on ordinals is the byte-wise order on the strings.  The width 61 is used for nothing else.
+const OrdW = 61
+
+func isOrd(t *smt.Term) bool { return t.Sort.K == smt.KBV && t.Sort.W == OrdW }
+
+func ordString(k uint64) string {
+	if k == 0 {
+		return ""
+	}
+	return fmt.Sprintf("%016x", k)
+}
+
+func parseOrd(s string) (uint64, bool) {
+	if s == "" {
+		return 0, true
+	}
+	if len(s) != 16 {
+		return 0, false
+	}
+	var k uint64
+	for i := 0; i < 16; i++ {
+		c := s[i]
+		switch {
+		case c >= '0' && c <= '9':
+			k = k<<4 | uint64(c-'0')
+		case c >= 'a' && c <= 'f':
+			k = k<<4 | uint64(c-'a'+10)
+		default:
+			return 0, false
+		}
+	}
+	if k == 0 || k >= 1<<OrdW {
+		return 0, false
+	}
+	return k, true
+}
+
+// ordPair brings two string terms to a common sort when one of them is an ordinal.
+func (ex *Exec) ordPair(x, y *smt.Term) (*smt.Term, *smt.Term) {
+	if isOrd(x) == isOrd(y) {
+		return x, y
+	}
+	conv := func(t *smt.Term) *smt.Term {
+		if isOrd(t) {
+			return t
+		}
+		if t.Sort.K == smt.KStr && t.IsConst() {
+			if k, ok := parseOrd(t.S); ok {
+				return ex.B.BVC(k, OrdW)
+			}
+		}
+		ex.unsupported("comparison of an ordinal string with a string that is not an ordinal")
+		return nil
+	}
+	return conv(x), conv(y)
 }
 
 func concBool(v Value) (bool, bool) {
